@@ -76,7 +76,7 @@ def cmd_check(patch, pids, tier="quick"):
         shutil.rmtree(tmp, ignore_errors=True)
 
 
-def cmd_all(tier="quick"):
+def cmd_all(tier="quick", seed="1"):
     base = os.path.join(VERIF, "seeded")
     rows = []
     for d in sorted(os.listdir(base)):
@@ -90,16 +90,23 @@ def cmd_all(tier="quick"):
         d, pid, patch = row
         tmp, dst = scratch(patch)
         try:
-            rc, line = check(dst, pid, tier)
+            rc, line = check(dst, pid, tier, seed)
         finally:
             shutil.rmtree(tmp, ignore_errors=True)
         return d, pid, rc, line
 
     bad = 0
+    results = {}
     with cf.ThreadPoolExecutor(8) as ex:
         for d, pid, rc, line in ex.map(one, rows):
             print("%-28s %s %s %s" % (d, pid, {0: "MISSED", 1: "caught", 2: "HARNESS-ERROR"}.get(rc, rc), line[:160]))
             bad += rc != 1
+            part = line.strip()[1:].split("]")[0] if line.strip().startswith("[") else ""
+            results[d] = {"property": pid, "tier": tier, "outcome": {0: "missed", 1: "caught", 2: "harness-error"}.get(rc, str(rc)),
+                          "caught_by_part": part, "first_message": line.strip()[:300]}
+    if seed == "1":
+        with open(os.path.join(base, "results.json"), "w") as f:
+            json.dump(results, f, indent=1, sort_keys=True)
     print("seeded changes not caught by their property's %s check: %d of %d" % (tier, bad, len(rows)))
     return 1 if bad else 0
 
@@ -117,6 +124,8 @@ if __name__ == "__main__":
             rest = rest[:i] + rest[i + 2:]
         sys.exit(cmd_check(a[1], rest or ALL, tier))
     if a and a[0] == "all":
-        sys.exit(cmd_all(a[2] if len(a) > 2 and a[1] == "--tier" else "quick"))
+        tier = a[a.index("--tier") + 1] if "--tier" in a else "quick"
+        seed = a[a.index("--seed") + 1] if "--seed" in a else "1"
+        sys.exit(cmd_all(tier, seed))
     print(__doc__)
     sys.exit(2)
